@@ -669,7 +669,7 @@ fn check(p: &Program, s: &XSt, _variant: Variant) -> (bool, bool) {
         // all permutations (Heap's algorithm, iterative)
         let k = perm.len();
         let mut c = vec![0usize; k];
-        let mut push = |perm: &Vec<usize>, extras: &mut Vec<Rel>| {
+        let push = |perm: &Vec<usize>, extras: &mut Vec<Rel>| {
             let mut r = [0u32; MAXE];
             for a in 0..perm.len() {
                 for b in a + 1..perm.len() {
